@@ -198,7 +198,7 @@ func nbtValueScenario(threads int) Scenario {
 		}
 		// a struct type that is new to the process (and so to the per-type cache) in every execution
 		// and in every iteration of the free-running pass: all threads meet in the cache-miss path
-		fresh := freshStruct(atomic.LoadInt64(&freeIter))
+		fresh := freshStruct(atomic.LoadInt64(&execSeq))
 		freshOut := make([][]byte, threads+1)
 		var hs []sched.Handle
 		for t := 1; t <= threads; t++ {
